@@ -1266,6 +1266,27 @@ fn random_texts(args: &Args) -> i32 {
     ] {
         bases.push(("h".to_string(), t.to_string()));
     }
+    // the repository's own statements of intent, unmutated: the examples of mod.rs (above) and the
+    // sources of the error tests of lang/error.rs
+    for t in [
+        "glue(0plx)", "chars(1pc)", "chars(content=1pc)", "chars(\"Hello\", 3, \"Mundo\")",
+        "chars(\"Hello\", font=3, \"Mundo\")", "chars(font=3, \"Hello\")", "chars(content=\"Hello\", content=\"World\")",
+        "chars(\"Hello\", content=\"Mundo\")", "chars(random=\"Hello\")", "random()", "chars()]", "chars())", ",chars()",
+        "chars,()", "()", "text", "chars[]()", "chars(]", "hbox(content=[))", "chars(\"Hello\"", "glue(,width=1pt)",
+        "glue(width,=1pt)", "glue(width=,1pt)", "glue(,1pt)", "glue(width)", "glue(width=)", "glue(width=1.1.1pt)",
+        "glue(width=1.1)", "/", "\u{e4}", "a(b=[c()])", "a(b=[],)", "a(b=[#X\n])",
+        "lig(\"\\\"\")lig(\"\\\"\")lig(\"\\\\\")lig(\"\\\\\")chars()", "f(3,key=4,)", "f#X\n(3,key=4,)", "f(3#X\n,key=4,)",
+        "f(3,key#X\n=4,)", "f(3,key=4,#X\n)", "f([#X\n],)", "f([],#X\n)", "f([]#X\n,)",
+    ] {
+        bases.push(("h".to_string(), t.to_string()));
+    }
+    for (m, t) in bases.iter().filter(|(_, t)| t.len() < 400).rev().take(51) {
+        if !st.seen(&format!("{m}{t}")) {
+            emit_parse(&mut out, &mut st, m, t);
+            emit_format(&mut out, &mut st, t);
+            st.inc("pinned_examples");
+        }
+    }
     for i in 0..n {
         let (m, text) = match i % 10 {
             // arbitrary text: characters, pool lexemes glued together, bytes read as lossy UTF-8
